@@ -148,6 +148,21 @@ var c07Letters = func() []c07Letter {
 			g.RelSmoothQuadTo(1, 1)
 			g.RelLineTo(0, 0)
 			g.RelSmoothQuadTo(1, -1)
+			// one-operand operations and close-and-moves repeated, with the same and with other operands
+			g.RelHLineTo(1)
+			g.RelHLineTo(1)
+			g.AbsVLineTo(3)
+			g.AbsVLineTo(3)
+			g.RelVLineTo(-1)
+			g.RelVLineTo(2)
+			g.AbsHLineTo(4)
+			g.AbsHLineTo(5)
+			g.ClosePathRelMoveTo(1, 1)
+			g.ClosePathRelMoveTo(1, 1)
+			g.RelLineTo(2, 0)
+			g.ClosePathAbsMoveTo(0, 0)
+			g.ClosePathAbsMoveTo(0, 0)
+			g.RelLineTo(1, 1)
 			g.ClosePathEndPath()
 			return nil
 		}},
@@ -162,6 +177,8 @@ type c07Case struct {
 	Names   string `json:"names,omitempty"`
 	// LoggerPair: [letter, letter, alt] of the logger transparency unit (letters of C01's alphabet)
 	LoggerPair []int `json:"logger_pair,omitempty"`
+	// Traffic: letters (indices into c07Traffic) of one history of the register-traffic exploration
+	Traffic []int `json:"register_traffic,omitempty"`
 }
 
 func c07Names(ls []int) string {
@@ -212,6 +229,9 @@ func init() {
 			st := &c07State{w: w}
 			if u == 0 {
 				c07LoggerTransparency(w, nil)
+			}
+			if u >= 1 && u <= 3 {
+				c07RegisterTraffic(w, u-1, nil)
 			}
 			if u%nl == 0 {
 				st.check(&c07Case{Letters: seq[:1], Set: 0, Logger: true})
@@ -280,6 +300,10 @@ func init() {
 			}
 			if cs.LoggerPair != nil {
 				c07LoggerTransparency(w, cs.LoggerPair)
+				return nil
+			}
+			if cs.Traffic != nil {
+				c07TrafficOne(w, cs.Traffic)
 				return nil
 			}
 			(&c07State{w: w}).check(&cs)
@@ -581,5 +605,130 @@ func c07LoggerTransparency(w *mc.W, only []int) {
 				}
 			}
 		}
+	}
+}
+
+// ---- register traffic ------------------------------------------------------------------------------
+//
+// Whatever an Encoder does with writes it considers redundant, the machine state that the byte stream
+// produces must be the state the calls produce: deeper histories over a tiny alphabet of selector moves
+// and register writes that name the *same* registers in different ways (ADJ 0 from selector 9, ADJ 1 from
+// selector 10, incrementing) with the same and with other values, and level-of-detail writes that restate
+// or change the range. Every history is encoded by a zero-value Encoder, decoded, and the decoded calls
+// are run on the reference machine beside the original calls: all 64+64 registers, both selectors and
+// the level-of-detail range must agree.
+var c07Traffic = func() []rec.Call {
+	x, y := rgba(0xff, 0, 0, 0xff), rgba(0x30, 0x66, 0x07, 0x80)
+	return []rec.Call{
+		{M: rec.MSetCSel, Adj: 9}, {M: rec.MSetCSel, Adj: 10},
+		{M: rec.MSetCReg, C: x}, {M: rec.MSetCReg, C: y}, {M: rec.MSetCReg, Adj: 1, C: x}, {M: rec.MSetCReg, Adj: 1, C: y}, {M: rec.MSetCReg, Incr: true, C: x},
+		{M: rec.MSetNSel, Adj: 9}, {M: rec.MSetNSel, Adj: 10},
+		{M: rec.MSetNReg, A: [6]float32{0.5}}, {M: rec.MSetNReg, A: [6]float32{7}}, {M: rec.MSetNReg, Adj: 1, A: [6]float32{0.5}}, {M: rec.MSetNReg, Adj: 1, A: [6]float32{7}}, {M: rec.MSetNReg, Incr: true, A: [6]float32{0.5}},
+		{M: rec.MSetLOD, A: [6]float32{1, 2}}, {M: rec.MSetLOD, A: [6]float32{0, float32(math.Inf(1))}},
+	}
+}()
+
+// family 0: the colour letters (0..6) to depth 7; family 1: the number letters (7..13) to depth 7;
+// family 2: all 16 letters to depth 4.
+func c07RegisterTraffic(w *mc.W, family int, _ []int) {
+	var letters []int
+	depth := 7
+	switch family {
+	case 0:
+		letters = []int{0, 1, 2, 3, 4, 5, 6}
+	case 1:
+		letters = []int{7, 8, 9, 10, 11, 12, 13}
+	default:
+		for i := range c07Traffic {
+			letters = append(letters, i)
+		}
+		depth = 4
+	}
+	var seq []int
+	var rc func()
+	rc = func() {
+		if len(seq) > 0 {
+			c07TrafficOne(w, seq)
+		}
+		if len(seq) == depth || w.Expired() {
+			return
+		}
+		for _, l := range letters {
+			seq = append(seq, l)
+			rc()
+			seq = seq[:len(seq)-1]
+		}
+	}
+	rc()
+}
+
+func c07TrafficVM(calls []rec.Call) *ref.VM {
+	vm := &ref.VM{}
+	vm.Reset(ivg.DefaultPalette)
+	vm.LOD0, vm.LOD1 = 0, float32(math.Inf(1))
+	for i := range calls {
+		c := &calls[i]
+		switch c.M {
+		case rec.MSetCSel:
+			vm.SetCSel(c.Adj)
+		case rec.MSetNSel:
+			vm.SetNSel(c.Adj)
+		case rec.MSetCReg:
+			k, d := rec.ColorParts(c.C)
+			vm.SetCReg(c.Adj, c.Incr, ref.Color{Kind: k, D: d})
+		case rec.MSetNReg:
+			vm.SetNReg(c.Adj, c.Incr, c.A[0])
+		case rec.MSetLOD:
+			vm.SetLOD(c.A[0], c.A[1])
+		}
+	}
+	return vm
+}
+
+func c07TrafficOne(w *mc.W, seq []int) {
+	w.Eval()
+	w.State(1)
+	w.Transition(int64(len(seq)))
+	calls := make([]rec.Call, len(seq))
+	var e encode.Encoder
+	for i, l := range seq {
+		calls[i] = c07Traffic[l]
+		calls[i].Apply(&e)
+	}
+	cs := func() c07Case { return c07Case{Traffic: append([]int(nil), seq...), Names: rec.CallsString(calls)} }
+	b, err := e.Bytes()
+	if err != nil {
+		w.Fail("traffic:encode-error", fmt.Sprintf("history [%s]: %v", rec.CallsString(calls), err), cs())
+		return
+	}
+	var rd rec.Dest
+	rd.NoPal = true
+	if err := decode.Decode(&rd, b); err != nil {
+		w.Fail("traffic:decode-error", fmt.Sprintf("history [%s]: stream %x: %v", rec.CallsString(calls), b, err), cs())
+		return
+	}
+	w.Trace()
+	want, got := c07TrafficVM(calls), c07TrafficVM(rd.Calls)
+	if *want != *got {
+		what := "selectors or level-of-detail range"
+		for i := 0; i < 64; i++ {
+			if want.CReg[i] != got.CReg[i] {
+				what = fmt.Sprintf("CREG[%d] is %v after the calls, %v after the stream", i, want.CReg[i], got.CReg[i])
+				break
+			}
+			if want.NReg[i] != got.NReg[i] {
+				what = fmt.Sprintf("NREG[%d] is %v after the calls, %v after the stream", i, want.NReg[i], got.NReg[i])
+				break
+			}
+		}
+		w.Fail("traffic:machine-state-differs", fmt.Sprintf("history [%s]: stream %x decodes to [%s]: %s", rec.CallsString(calls), b, rec.CallsString(rd.Calls), what), cs())
+	}
+	if len(seq) <= 3 {
+		h := mc.NewHasher()
+		h.Str("traffic")
+		for _, l := range seq {
+			h.Byte(byte(l))
+		}
+		w.Outcome(h.Sum(), true)
 	}
 }
